@@ -521,6 +521,26 @@ def {}():
         if yy in method_is_top_level_callee:
           top._dag.top_level_callee_constraints.add( (xx, yy) )
 
+    # x < y < z makes x < z: a method in the middle that nobody calls must
+    # not cut the chain between a top level callee and the callers of z
+    def reachable( start, edges ):
+      seen, Q = set(), [ start ]
+      while Q:
+        u = Q.pop()
+        for v in list( edges[u] ) + [ w for w in ( equiv[u] if u in equiv else () ) if w is not u ]:
+          if v not in seen:
+            seen.add( v )
+            Q.append( v )
+      return seen
+
+    for (xx, yy) in list( top._dag.top_level_callee_constraints ):
+      if xx in method_is_top_level_callee:
+        for zz in reachable( yy, succ ):
+          top._dag.top_level_callee_constraints.add( (xx, zz) )
+      if yy in method_is_top_level_callee:
+        for zz in reachable( xx, pred ):
+          top._dag.top_level_callee_constraints.add( (zz, yy) )
+
     verbose = False
 
     all_upblks = top.get_all_update_blocks()
